@@ -523,10 +523,68 @@ def leaves_loop(s_):
     return False
 
 
+def interp_url_decode(ctx, prog, f, RULE):
+    """Url::decode decided by interpretation (scansim; the argument and the result String modelled as bounds-checked buffers)
+    on every string of up to 5 characters over {%, 4, 1, a, g, 0}: no read beyond the terminator, and for well-formed texts
+    (every % followed by two hex digits) the result is the percent-decoded text, a decoded NUL never being stored."""
+    import scansim, itertools
+    pid = f['params'][0]['id']
+    bad = None
+    runs = 0
+    try:
+        for L in range(0, 6):
+            for t in itertools.product('%41ag0', repeat=L):
+                text = ''.join(t)
+                bufs = {('O', pid): [ord(c) for c in text] + [0]}
+                r = scansim.Run(prog, f, bufs, objects=True)
+                r.objlen[pid] = L
+                r.strobjs.add(pid)
+                runs += 1
+                try:
+                    ret = r.run()
+                except scansim.OOB as o:
+                    bad = 'Url::decode("%s"): %s - a truncated escape at the end of the text reads past the terminator' % (text, o)
+                    break
+                # well-formed: compare with the reference
+                ok_form, i, ref = True, 0, []
+                while i < L:
+                    if text[i] == '%':
+                        if i + 2 < L + 0 + 1 and i + 2 <= L - 0 and all(c in '0123456789abcdefABCDEF' for c in text[i + 1:i + 3]) and len(text[i + 1:i + 3]) == 2:
+                            v = int(text[i + 1:i + 3], 16)
+                            if v != 0:
+                                ref.append(v)
+                            i += 3
+                        else:
+                            ok_form = False
+                            break
+                    else:
+                        ref.append(ord(text[i]))
+                        i += 1
+                if ok_form:
+                    if not (isinstance(ret, tuple) and ret[0] == 'P' and isinstance(ret[1], tuple) and ret[1][0] == 'O' and ret[1][1] != pid):
+                        raise scansim.Unsupported('result is not a local string')
+                    out = bufs[ret[1]]
+                    got = [x & 255 for x in out[:out.index(0)]] if 0 in out else None
+                    if got != ref:
+                        bad = 'Url::decode("%s") is %r, the percent-decoded text is %r' % (text, bytes(got or []), bytes(ref))
+                        break
+            if bad:
+                break
+    except (scansim.Unsupported, TypeError, KeyError, IndexError, ValueError) as ex:
+        ctx.info['url_decode_interpretation'] = 'outside the interpreted fragment: %s' % ex
+        return False
+    ctx.evaluations += runs
+    ctx.check(bad is None, RULE, f['pq'], 'decode:escapes decoded inside the text', fwhere(f), 'interpreted on %d strings up to 5 characters over {%%, 4, 1, a, g, 0}: no read past the terminator, well-formed escapes decoded, a decoded NUL never stored' % runs, bad)
+    return True
+
+
 def url_decode_lookahead(ctx, prog, RULE):
     """Url::decode: every q0[i + j] look-ahead stays within [0, length] under its guards (shared by C09 and C15)"""
     f = fn1(prog, 'asl::Url::decode')
     ctx.analysed(f)
+    if interp_url_decode(ctx, prog, f, RULE):
+        ctx.info['url_decode'] = 'decided by interpretation of the whole function'
+        return f
     g = q.Guarded(f)
     src = f['params'][0]['id']
     n = 0
@@ -798,6 +856,51 @@ def check_lines(ctx, prog):
         ctx.check(spins is None, 'C09.lines', b['pq'], 'readBody:`%s` is not repeated after end of stream' % pe(rd.e)[:40], fwhere(b, rd.line), 'after the read returned <= 0 it is not reachable again',
                   'HttpMessage::readBody reaches `%s` again after it returned %s: when the peer closes in the middle of the body (inside a chunk) the loop makes no progress and the server thread spins forever on the dead connection' % (pe(rd.e)[:60], spins))
     ctx.floor('C09.lines body reads', nreads, 1)
+    # decided on the CFG when possible: with available() == 0 after a successful wait (the peer closed) and a body that is not
+    # chunked, the loop must not come round to its wait again
+    av_nodes = [n_ for n_ in bcfg.nodes if n_.kind in ('ev', 'decl') and any(w.get('k') == 'call' and (w.get('pq') or '').endswith('::available') for w in walk_expr((n_.e if n_.kind == 'ev' else (n_.info or {}).get('init')) or {}))]
+    chunk_vars = {}
+    for s_ in ir.walk_stmts(b['body']):
+        if s_.get('k') == 'decl':
+            for v in s_['vars']:
+                if v.get('init') is not None and any(w.get('k') == 'str' and bytes(w.get('b', [])).decode('latin-1').lower() == 'chunked' for w in walk_expr(v['init'])) and T(b, v['t']).get('bool'):
+                    chunk_vars[v['id']] = 0
+    if len(av_nodes) >= 2 and chunk_vars:
+        first, last = av_nodes[0], av_nodes[-1]
+        env = dict(chunk_vars)
+        texts = {}
+        for n_ in av_nodes:
+            ex_ = n_.e if n_.kind == 'ev' else n_.info.get('init')
+            for w in walk_expr(ex_):
+                if w.get('k') == 'call' and (w.get('pq') or '').endswith('::available'):
+                    texts[pe(w)] = 0
+            if n_.kind == 'decl':
+                env[n_.info['id']] = 0
+        for w in fn_exprs(b):
+            if w.get('k') == 'bin' and w.get('op') == '=' and strip_lv(w['x']).get('k') == 'var' and any(x.get('k') == 'call' and (x.get('pq') or '').endswith('::available') for x in walk_expr(w['y'])):
+                env[strip_lv(w['x'])['id']] = 0
+        for s_ in ir.walk_stmts(b['body']):
+            if s_.get('k') == 'decl':
+                for v in s_['vars']:
+                    if v.get('init') is not None and strip(v['init']).get('k') == 'call' and (strip(v['init']).get('pq') or '').endswith('::available'):
+                        env[v['id']] = 0
+        ev = bounded.Bound(prog, b, env, texts)
+        seen, work, again = set(), [m_ for m_, _ in last.succ], False
+        while work:
+            n_ = work.pop()
+            if n_ is first:
+                again = True
+                break
+            if n_.id in seen:
+                continue
+            seen.add(n_.id)
+            want = ev.ev3(n_.e) if n_.kind == 'br' and n_.e is not None else None
+            for m_, lab in n_.succ:
+                if want is not None and lab in (True, False) and lab != want:
+                    continue
+                work.append(m_)
+        ctx.evaluations += len(seen)
+        okb = not again
     ctx.check(okb, 'C09.lines', b['pq'], 'readBody:leaves the loop when the peer closed', fwhere(b), 'readable with nothing available -> break',
               'readBody keeps waiting when the socket is readable but nothing is available (peer closed before Content-Length bytes arrived): the request never completes')
 
